@@ -20,7 +20,8 @@ META = dict(
          "the timeout has elapsed, then +T/4 per call). Oracle: a reconnectable subject is connected to a live socket - "
          "connected, not cut off, .ca/.ha equal to the double's getsockname()/getpeername(), peer open - from the 4th good "
          "call on; a subject that is not reconnectable constructs no socket after it has been cut off; nothing raises. "
-         "Extra subject PatronSSE: a reconnectable Patron follows a text/event-stream whose server announces retry: 500 (ms) and "
+         "ClientTls (fake TLS context, handshake completes or answers want-read by choice; live also means handshaked on the "
+         "current socket) runs the same schedules, an https Patron over ClientTls the reconnectable ones. Extra subject PatronSSE: a reconnectable Patron follows a text/event-stream whose server announces retry: 500 (ms) and "
          "drops the stream 3 (4) times, after 2, 0 or 6 calls, by close or ECONNRESET - all combinations; it must be live again "
          "within 8 service calls (retry/step + 4) of every cut.",
     note="Doubles replace loopback sockets so that the harness owns the schedule. 'Service call' for a bare Client is the "
@@ -36,7 +37,8 @@ HA = (net.LOOP, PORT)
 T = 1.0
 ADV = (T, T / 2, 0.0)                 # variant "immediate": default one timeout per service call
 ADV_REAL = (T / 4, T, 0.0, 10 * T)    # variant "realistic": serviced 4x per timeout; 10T = long uptime / outage
-SUBJECTS = ("Client", "Patron", "TcpClientStack")
+SUBJECTS = ("Client", "Patron", "TcpClientStack", "ClientTls")
+TLS_EXTRA = (("PatronTls", True, True),)     # https Patron over ClientTls, reconnectable
 BOUNDS = dict(quick=dict(dev=3, H=6), thorough=dict(dev=4, H=9))
 CLOSING = 6
 WINDOW = 4
@@ -130,10 +132,14 @@ class Env:
         return any(not c.closed for c in self.conns)
 
 
-def build(subject, reconnectable, ck):
+def build(subject, reconnectable, ck, fn):
     """Returns (object, handler getter, service callable)."""
-    if subject == "Client":
-        c = M["clienting"].Client(ha=HA, store=ck, timeout=T, reconnectable=reconnectable)
+    if subject in ("Client", "ClientTls"):
+        if subject == "Client":
+            c = M["clienting"].Client(ha=HA, store=ck, timeout=T, reconnectable=reconnectable)
+        else:
+            c = M["clienting"].ClientTls(ha=HA, store=ck, timeout=T, reconnectable=reconnectable,
+                                         context=net.FakeSslContext(fn))
         c.reopen()
 
         def service():
@@ -143,6 +149,13 @@ def build(subject, reconnectable, ck):
         return c, (lambda: c), service
     if subject == "Patron":
         p = M["hclienting"].Patron(store=ck, hostname=net.LOOP, port=PORT, timeout=T, reconnectable=reconnectable)
+        p.connector.reopen()
+        return p, (lambda: p.connector), p.serviceAll
+    if subject == "PatronTls":
+        p = M["hclienting"].Patron(store=ck, hostname=net.LOOP, port=PORT, scheme=u"https", timeout=T,
+                                   reconnectable=reconnectable, context=net.FakeSslContext(fn))
+        if not isinstance(p.connector, M["clienting"].ClientTls):
+            raise core.BrokenCheck("https Patron did not build a ClientTls connector")
         p.connector.reopen()
         return p, (lambda: p.connector), p.serviceAll
     if subject == "TcpClientStack":
@@ -167,6 +180,12 @@ def live(subject, obj, h):
     raw = raw_of(h.cs)
     if raw.closed or raw.state != "connected":
         return "socket is %s" % ("closed" if raw.closed else raw.state)
+    if not h.accepted:
+        return "connected is True but accepted is False"
+    if hasattr(h.cs, "handshaked") and not h.cs.handshaked:
+        return "connected is True but the TLS handshake of the current socket never completed"
+    if "Tls" in subject and not hasattr(h.cs, "handshaked"):
+        return "TLS client is connected on a socket that was never wrapped"
     if raw.peer is None or raw.peer.closed or raw.peer_closed:
         return "connected flag is set but the peer of its socket is gone"
     if tuple(h.ca) != raw.getsockname() or tuple(h.ha) != raw.getpeername():
@@ -198,10 +217,11 @@ def execute(ch, subject, reconnectable, up0, H, part, states):
     ck = net.clock()
     env = Env(fn, up0)
     sched = ["connect=steady"] if steady else (["connect=realistic"] if realistic else [])
-    faulty = net.Menu(connect=(errno.EINPROGRESS, errno.ECONNREFUSED), recv_idle_errnos=(errno.ECONNRESET,))
+    faulty = net.Menu(connect=(errno.EINPROGRESS, errno.ECONNREFUSED), recv_idle_errnos=(errno.ECONNRESET,),
+                      handshake=("want_read",))      # only TLS subjects ever handshake
     fn.menu = faulty
     try:
-        obj, handler, service = build(subject, reconnectable, ck)
+        obj, handler, service = build(subject, reconnectable, ck, fn)
     except Exception as ex:
         return ("raised|%s|%s" % (type(ex).__name__, where_of(ex)), "constructor raised %r" % ex, sched, fn)
     was_connected = False
@@ -463,6 +483,7 @@ def run():
     ck = core.Check("C27", META["level"], META["technique"])
     cfgs = [(s, r, u) for s in SUBJECTS for r in (True, False) for u in (True, False)]
     cfgs.append(("PatronSSE", True, True))
+    cfgs.extend(TLS_EXTRA)
     ck.merge(core.pmap(work, cfgs))
     ck.part.states = len(ck.part.keys)
     b = BOUNDS[core.TIER]
@@ -482,7 +503,7 @@ def run():
     ck.coverage_extra = dict(deviation_bound=b["dev"], horizon=b["H"], closing_calls=CLOSING, window=WINDOW, steady_closing_calls=STEADY_CLOSING, steady_window=STEADY_WINDOW,
                              configurations=len(cfgs))
     return ck.finish(
-        rule="{Client, Patron, TcpClientStack} x {reconnectable, not} x {server initially up, down}: every schedule of %d "
+        rule="{Client, Patron, TcpClientStack, ClientTls} (+ https Patron, reconnectable) x {reconnectable, not} x {server initially up, down}: every schedule of %d "
              "service calls with <= %d deviations among env event {none, toggle server, server closes connection}, clock "
              "advance {T, T/2, 0}, connect_ex {natural, EINPROGRESS, ECONNREFUSED}, idle recv {would-block, ECONNRESET}; "
              "followed by %d good calls; plus PatronSSE: a reconnectable Patron on a text/event-stream with retry: 500, every "
